@@ -1,0 +1,61 @@
+//go:build verif
+
+package window
+
+import (
+	"time"
+
+	"github.com/rulego/streamsql/types"
+)
+
+// Deterministic stepping of the global window for the external verification harness
+// (build tag verif, property C17). Start is never called: the harness performs, one row at a
+// time, exactly what the Start goroutine does with a row received from triggerChan.
+
+// VerifNewGlobal builds an (unstarted) global window.
+func VerifNewGlobal(config types.WindowConfig) (*GlobalWindow, error) {
+	return NewGlobalWindow(config)
+}
+
+// VerifProcessRow: the Start goroutine receives one row and handles it (processRow).
+func (gw *GlobalWindow) VerifProcessRow(data map[string]any) {
+	gw.processRow(types.Row{Data: data, Timestamp: time.Unix(0, 0)})
+}
+
+// VerifDrain: non-blocking read of everything in outputChan.
+func (gw *GlobalWindow) VerifDrain() [][]types.Row { return verifDrain(gw.outputChan) }
+
+// VerifGroupCount: number of groups that currently hold state.
+func (gw *GlobalWindow) VerifGroupCount() int {
+	gw.mu.Lock()
+	defer gw.mu.Unlock()
+	return len(gw.groups)
+}
+
+// VerifAggSpec is the (alias/placeholder, function, input field, bound output alias) view of
+// one output or trigger aggregate as built by buildOutputSpecs/buildTrigger.
+type VerifAggSpec struct {
+	Name        string // output alias, or trigger placeholder
+	AggType     string
+	InputField  string
+	OutputAlias string // trigger specs only: alias of the SELECT aggregate the call is bound to ("" = trigger-only)
+}
+
+// VerifOutputSpecs returns the SELECT aggregates the window maintains.
+func (gw *GlobalWindow) VerifOutputSpecs() []VerifAggSpec {
+	out := make([]VerifAggSpec, 0, len(gw.outputSpecs))
+	for _, s := range gw.outputSpecs {
+		out = append(out, VerifAggSpec{Name: s.alias, AggType: string(s.aggType), InputField: s.inputField})
+	}
+	return out
+}
+
+// VerifTriggerSpecs returns the aggregate calls extracted from TRIGGER WHEN, in document order,
+// and the rewritten predicate.
+func (gw *GlobalWindow) VerifTriggerSpecs() ([]VerifAggSpec, string) {
+	out := make([]VerifAggSpec, 0, len(gw.triggerSpecs))
+	for _, s := range gw.triggerSpecs {
+		out = append(out, VerifAggSpec{Name: s.placeholder, AggType: string(s.aggType), InputField: s.inputField, OutputAlias: s.outputAlias})
+	}
+	return out, gw.rewrittenPredicate
+}
